@@ -2,7 +2,7 @@ open Drv_common
 
 (* streams of C10:
      html_escaped id <s> <HTMLEscaped(s)> <html.UnescapeString(HTMLEscaped(s))>
-     html_concat  id <n> <s1> .. <sn> <HTMLConcat(HTMLEscaped s1, ..)>            *)
+     html_concat  id <n> <s1> .. <sn> <HTMLConcat(HTMLEscaped s1, ..)> <the same call again> <slice unchanged 1|0> *)
 let () =
   reg "html_escaped" (fun f ->
       let id = f.(1) in
@@ -22,5 +22,10 @@ let () =
       let parts = List.init n (fun i -> bytes_of_hex f.(3 + i)) in
       let o = bytes_of_hex f.(3 + n) in
       let expect = List.concat (List.map V.html_escaped parts) in
-      if o <> expect then specfail id "concat_is_not_concatenation" else ok id "+concat");
+      let second_differs = Array.length f > 4 + n && bytes_of_hex f.(4 + n) <> expect in
+      let slice_written = Array.length f > 5 + n && f.(5 + n) = "0" in
+      if o <> expect then specfail id "concat_is_not_concatenation"
+      else if second_differs then specfail id "concat_of_the_same_slice_differs_the_second_time"
+      else if slice_written then specfail id "concat_writes_to_the_callers_slice"
+      else ok id "+concat");
   reg_bridges "C10" V.c10_bridges
